@@ -43,7 +43,8 @@ SPEC = {
             "' ', newline, '(* c *)' or '/* c */' is inserted at each boundary of the hole token and of its two neighbours; "
             "the first accepted candidate of every distinct node structure and of a rotating quarter of the holes gets each "
             "piece between EVERY pair of adjacent significant tokens, the base texts at every token boundary; thorough: 9 "
-            "pieces at every token boundary of every accepted candidate), the nesting families (in EVERY run, each text in its own capped child process on a thread "
+            "pieces, at every token boundary for the first three accepted candidates of every hole and every new structure, "
+            "around the hole for the others), the nesting families (in EVERY run, each text in its own capped child process on a thread "
             "with a 2 MiB stack: (i) 16 expression forms - parentheses, call arguments positional/named/second, index lists, "
             "right-associative **, unary - and NOT, unary after binary, call/index and paren/call alternations, ADR, and the "
             "three flat chains a + a + .., a.b.b.., a^[1](2).. - at exactly MAX_EXPRESSION_DEPTH levels, one more, 76 more, "
